@@ -86,7 +86,8 @@ func directiveTruncate(value data.Value, args []data.Value) data.Value {
 	}
 	var maxLen = int(args[0].(data.Int))
 	var str = value.String()
-	if len(str) <= maxLen {
+	// lengths are counted in characters, not bytes.
+	if utf8.RuneCountInString(str) <= maxLen {
 		return value
 	}
 
@@ -107,11 +108,14 @@ func directiveTruncate(value data.Value, args []data.Value) data.Value {
 		}
 	}
 
-	for !utf8.RuneStart(str[maxLen]) {
-		maxLen--
+	// cut after maxLen characters (always at a character boundary).
+	var end = 0
+	for n := 0; n < maxLen && end < len(str); n++ {
+		var _, width = utf8.DecodeRuneInString(str[end:])
+		end += width
 	}
 
-	str = str[:maxLen]
+	str = str[:end]
 	if ellipsis {
 		str += "..."
 	}
